@@ -9,6 +9,8 @@
 package refserver
 
 import (
+	"time"
+	"strconv"
 	"bytes"
 	"compress/gzip"
 	"encoding/hex"
@@ -69,6 +71,8 @@ type Server struct {
 	Log []Exchange
 	up  map[string]*upSession
 	rp  map[string]*rpSession
+
+	packs int // packfile responses so far
 }
 
 func New(db objects.Store, rs ref.Store, maxPack uint64) *Server {
@@ -239,6 +243,21 @@ func (s *Server) uploadPack(w http.ResponseWriter, r *http.Request) {
 		delete(s.up, sid)
 	}
 	w.Header().Set("Content-Type", api.CTPackfile)
+	// every other packfile is sent with its size announced (Content-Length, as a buffering server or a proxy
+	// would), the others chunked: the bytes the client decodes are the same
+	s.packs++
+	if (buf.Len()+s.packs)%2 == 0 {
+		w.Header().Set("Content-Length", strconv.Itoa(buf.Len()))
+		// ... and leaves in two segments, as a body of any size may
+		b := buf.Bytes()
+		w.Write(b[:len(b)/2])
+		if f, ok := w.(http.Flusher); ok {
+			f.Flush()
+			time.Sleep(2 * time.Millisecond)
+		}
+		w.Write(b[len(b)/2:])
+		return
+	}
 	w.Write(buf.Bytes())
 }
 
